@@ -205,6 +205,32 @@ P_Load ==
       ]_vars
 P_SaveUntouched == [][ (ph = "chosen" /\ lab'[1] = "save") => <<st'.act, st'.res, st'.q, st'.plans>> = <<st.act, st.res, st.q, st.plans>> ]_vars
 
+\* C09 : what a processing step recorded as its history (previousTransitions), replayed on a machine in the step's
+\*       pre-state under the same environment (no user hooks: replay calls no guards), reproduces the configuration
+\*       the step ended in - whatever rounds, vetoes and substitutions the step went through
+ReplayOf(m, m2) == Replay(BeginCall(m, [m2.sc EXCEPT !.hooks = <<>>]), m2.prev)
+P_Replay ==
+    [][ (ph = "chosen" /\ Processing(lab') /\ ~LimitHit(st') /\ Len(st'.prev) > 0) =>
+          LET rp == ReplayOf(st, st') IN
+          /\ rp.act = st'.act
+          /\ rp.ok <=> (st'.act # st.act \/ \E i \in 1 .. Len(st'.ev) : Base(st'.ev[i][2]) \in LifeMethods)
+          /\ WellFormed(rp)
+      ]_vars
+
+\* C13 : in every reachable state and for every state d, a hook-free external resume(d) leaves every composite region at
+\*       or below d that it activates (head inactive before, active after) on the sub-state isResumable named before -
+\*       at most one per region - else on the first (above d the path to d decides)
+ResumeNamed ==
+    (On(st) /\ Len(st.q) = 0) =>
+        \A d \in Menu.dests :
+            LET m2 == Step(st, <<"imm", "resume", d, 0>>, EmptyScript) IN
+            \A c \in Compos :
+                LET h == CompoHead(c)
+                    named == { p \in 1 .. St[h].width : IsResumable(st, Kid(h, p)) }
+                IN /\ Cardinality(named) <= 1
+                   /\ (IsActive(m2, h) /\ ~IsActive(st, h) /\ h \in Subtree(d)) =>
+                          m2.act[c] = (IF named = {} THEN 1 ELSE CHOOSE p \in named : TRUE)
+
 \* C05
 Consumers(m, phase) ==
     { <<h[1], h[2]>> : h \in { m.sc.hooks[i] : i \in { j \in 1 .. Len(m.sc.hooks) :
